@@ -68,7 +68,7 @@ def main():
             sh("git -C %s checkout -- . && git -C %s clean -fdq" % (WT, WT))
             ok = True
             if "patch" in it:
-                r = sh("git -C %s apply %s" % (WT, it["patch"]))
+                r = sh("git -C %s apply --recount %s" % (WT, it["patch"]))
                 ok = r.returncode == 0
                 if not ok:
                     print("%-45s PATCH DOES NOT APPLY: %s" % (it["id"], r.stdout.strip()[:200]))
